@@ -101,6 +101,7 @@ def gram_replay_cmd(exe, v, pid):
     cmd = [exe, '--props', pid, '--one', v['spec'], '--nt', str(v['nt']), '--t', str(v['t']), '--prec', v.get('pspec', ''), '--rprec', v.get('rspec', ''), '--maxlen', '5', '-v']
     if v.get('input') or v.get('kind', '') in (): cmd += ['--input', v['input']]
     if ']L' in v.get('frame', ''): cmd += ['--custom', '1']
+    elif any(ch in v.get('input', '') for ch in ' \n?'): cmd += ['--rich']
     return cmd
 
 def run_gram(pid, tier, rep, deadline_s):
